@@ -8,10 +8,12 @@ import WuffsVerif.Proof.WCoreBounds
 namespace WuffsVerif.Proof.WCoreStmt
 open WuffsVerif.Interval WuffsVerif.WCore WuffsVerif.Proof.WCoreBounds
 
-/-- typing context: the declared type of every variable name -/
+/-- typing context: the declared type of every variable name; for an array name,
+the type of its elements -/
 abbrev Ctx := String → Ty
 
-/-- every variable node carries the type the context declares for its name -/
+/-- every variable node carries the type the context declares for its name, every
+array-element node the element type declared for the array -/
 def wt (Γ : Ctx) : Expr → Prop
   | .const _ => True
   | .var n t => t = Γ n
@@ -19,22 +21,33 @@ def wt (Γ : Ctx) : Expr → Prop
   | .binary _ l r => wt Γ l ∧ wt Γ r
   | .as _ e => wt Γ e
   | .assoc _ _ l r => wt Γ l ∧ wt Γ r
+  | .index a _ ety i => ety = Γ a ∧ wt Γ i
 
-/-- the store respects the context -/
-def EnvOk (Γ : Ctx) (env : Env) : Prop := ∀ n, inType (Γ n) (env n)
+/-- the store respects the context: every location holds a value of the declared
+(refined) type of its variable / of its array's elements -/
+def EnvOk (Γ : Ctx) (env : Env) : Prop := ∀ key : Key, inType (Γ key.name) (env key)
 
 theorem varsOk_of_wt {Γ : Ctx} {env : Env} (he : EnvOk Γ env) :
     ∀ e, wt Γ e → varsOk env e := by
   intro e
   induction e with
   | const v => intro _; trivial
-  | var n t => intro h; simp only [wt] at h; subst h; exact he n
+  | var n t => intro h; simp only [wt] at h; subst h; exact he (.sc n)
   | unary op e ih => intro h; exact ih h
   | binary op l r ihl ihr => intro h; exact ⟨ihl h.1, ihr h.2⟩
   | «as» t e ih => intro h; exact ih h
   | assoc op pre l r ihl ihr => intro h; exact ⟨ihl h.1, ihr h.2⟩
+  | index a len ety i ih =>
+    intro h
+    simp only [wt] at h
+    obtain ⟨h1, h2⟩ := h
+    subst h1
+    exact ⟨ih h2, fun k => he (.cell a k)⟩
 
-def upd (env : Env) (n : String) (v : Int) : Env := fun m => if m = n then v else env m
+/-- the store after writing `v` to the scalar variable `n` -/
+def upd (env : Env) (n : String) (v : Int) : Env := fun m => if m = .sc n then v else env m
+
+theorem upd_eq_updKey (env : Env) (n : String) (v : Int) : upd env n v = updKey env (.sc n) v := rfl
 
 theorem mentions_self (e : Expr) : mentions e e = true := by
   cases e <;> simp [mentions]
@@ -52,7 +65,9 @@ theorem evalI_upd {Γ : Ctx} {env : Env} {n : String} (v : Int) :
     simp only [mentions, Bool.or_false, beq_eq_false_iff_ne, ne_eq] at hm
     simp only [evalI, upd]
     split
-    · rename_i h; subst h; exact absurd rfl hm
+    · rename_i h
+      simp only [Key.sc.injEq] at h
+      subst h; exact absurd rfl hm
     · rfl
   | unary op e ih =>
     intro hw hm
@@ -70,9 +85,59 @@ theorem evalI_upd {Γ : Ctx} {env : Env} {n : String} (v : Int) :
     intro hw hm
     simp only [mentions, Bool.or_eq_false_iff] at hm
     simp only [evalI, ihl hw.1 hm.2.1, ihr hw.2 hm.2.2]
+  | index a len ety i ih =>
+    intro hw hm
+    simp only [mentions, Bool.or_eq_false_iff] at hm
+    simp only [evalI, ih hw.2 hm.2]
+    simp [upd]
 
-/-- all facts of this layer are comparisons -/
+/-- an expression that reads no element of the array `a` does not depend on them -/
+theorem evalI_updCell {env : Env} {a : String} (k v : Int) :
+    ∀ e, readsArr e a = false → evalI (updKey env (.cell a k) v) e = evalI env e := by
+  intro e
+  induction e with
+  | const c => intro _; rfl
+  | var m t => intro _; simp [evalI, updKey]
+  | unary op e ih =>
+    intro hm
+    simp only [readsArr] at hm
+    cases op <;> simp only [evalI, ih hm]
+  | binary op l r ihl ihr =>
+    intro hm
+    simp only [readsArr, Bool.or_eq_false_iff] at hm
+    simp only [evalI, ihl hm.1, ihr hm.2]
+  | «as» t e ih =>
+    intro hm
+    simp only [readsArr] at hm
+    simp only [evalI, ih hm]
+  | assoc op pre l r ihl ihr =>
+    intro hm
+    simp only [readsArr, Bool.or_eq_false_iff] at hm
+    simp only [evalI, ihl hm.1, ihr hm.2]
+  | index b len ety i ih =>
+    intro hm
+    simp only [readsArr, Bool.or_eq_false_iff, beq_eq_false_iff_ne, ne_eq] at hm
+    simp only [evalI, ih hm.2, updKey]
+    split
+    · rename_i h
+      simp only [Key.cell.injEq] at h
+      exact absurd h.1 hm.1
+    · rfl
+
+/-- a comparison fact -/
 def IsCmpFact (f : Expr) : Prop := ∃ op l r, f = .binary op l r ∧ op.isCmp = true
+
+/-- what the fact rewriting of an op-assignment needs of a fact: a binary fact is a
+comparison, or its left operand is a boolean (so it cannot be the numeric target).
+Comparisons, `not`, `and`/`or` of booleans, boolean variables all satisfy it. -/
+def GoodFact (f : Expr) : Prop :=
+  ∀ op l r, f = .binary op l r → op.isCmp = true ∨ (typeOf l).base = .bool
+
+theorem goodFact_of_cmp {f : Expr} (h : IsCmpFact f) : GoodFact f := by
+  obtain ⟨op, l, r, rfl, hop⟩ := h
+  intro op' l' r' he
+  cases he
+  exact Or.inl hop
 
 theorem appendFact_cmp {fs : List Expr} {f : Expr} (hc : IsCmpFact f) :
     appendFact fs f = if fs.contains f then fs else fs ++ [f] := by
@@ -153,36 +218,39 @@ theorem fitsType_spec {t : Ty} {nb : IR} {v : Int} (h : fitsType t nb = true) (h
     exact (typeBounds_mem_iff ht v).1 (mem_some.2 (by omega))
   · cases h
 
-theorem boundFacts_sound {Γ : Ctx} {env : Env} {fs fs' : List Expr} {n : String} {nb : IR}
-    (hb : boundFacts fs (.var n (Γ n)) nb = some fs') (hm : nb.mem (env n))
-    (hf : FactsHold env fs) (hw : ∀ f ∈ fs, wt Γ f) (hc : ∀ f ∈ fs, IsCmpFact f) :
-    FactsHold env fs' ∧ (∀ f ∈ fs', wt Γ f) ∧ (∀ f ∈ fs', IsCmpFact f) := by
+/-- the facts `lhs >= lo`, `lhs <= hi` recorded after a store are true when the stored
+value lies in `nb` -/
+theorem boundFacts_sound {Γ : Ctx} {env : Env} {fs fs' : List Expr} {lhs : Expr} {nb : IR}
+    (hwl : wt Γ lhs)
+    (hb : boundFacts fs lhs nb = some fs') (hm : nb.mem (evalI env lhs))
+    (hf : FactsHold env fs) (hw : ∀ f ∈ fs, wt Γ f) (hc : ∀ f ∈ fs, GoodFact f) :
+    FactsHold env fs' ∧ (∀ f ∈ fs', wt Γ f) ∧ (∀ f ∈ fs', GoodFact f) := by
   unfold boundFacts at hb
   split at hb
   · rename_i tlo thi lo hi ht hlo hhi
     cases hb
     have h1 := mem_lo hm hlo
     have h2 := mem_hi hm hhi
-    have cge : IsCmpFact (.binary .ge (.var n (Γ n)) (.const lo)) := ⟨_, _, _, rfl, rfl⟩
-    have cle : IsCmpFact (.binary .le (.var n (Γ n)) (.const hi)) := ⟨_, _, _, rfl, rfl⟩
-    have tge : evalI env (.binary .ge (.var n (Γ n)) (.const lo)) ≠ 0 :=
+    have cge : IsCmpFact (.binary .ge lhs (.const lo)) := ⟨_, _, _, rfl, rfl⟩
+    have cle : IsCmpFact (.binary .le lhs (.const hi)) := ⟨_, _, _, rfl, rfl⟩
+    have tge : evalI env (.binary .ge lhs (.const lo)) ≠ 0 :=
       (evalI_cmp rfl _ _).2 (by simpa [cmpRel, evalI] using h1)
-    have tle : evalI env (.binary .le (.var n (Γ n)) (.const hi)) ≠ 0 :=
+    have tle : evalI env (.binary .le lhs (.const hi)) ≠ 0 :=
       (evalI_cmp rfl _ _).2 (by simpa [cmpRel, evalI] using h2)
     -- first the >= fact, then the <= fact
-    have step1 : FactsHold env (if tlo < lo then appendFact fs (.binary .ge (.var n (Γ n)) (.const lo)) else fs) ∧
-        (∀ f ∈ (if tlo < lo then appendFact fs (.binary .ge (.var n (Γ n)) (.const lo)) else fs), wt Γ f) ∧
-        (∀ f ∈ (if tlo < lo then appendFact fs (.binary .ge (.var n (Γ n)) (.const lo)) else fs), IsCmpFact f) := by
+    have step1 : FactsHold env (if tlo < lo then appendFact fs (.binary .ge lhs (.const lo)) else fs) ∧
+        (∀ f ∈ (if tlo < lo then appendFact fs (.binary .ge lhs (.const lo)) else fs), wt Γ f) ∧
+        (∀ f ∈ (if tlo < lo then appendFact fs (.binary .ge lhs (.const lo)) else fs), GoodFact f) := by
       split
       · refine ⟨factsHold_appendFact cge hf tge, ?_, ?_⟩
         · intro f hfm
           rcases mem_appendFact_cmp cge hfm with h | h
           · exact hw f h
-          · subst h; simp [wt]
+          · subst h; exact ⟨hwl, trivial⟩
         · intro f hfm
           rcases mem_appendFact_cmp cge hfm with h | h
           · exact hc f h
-          · subst h; exact cge
+          · subst h; exact goodFact_of_cmp cge
       · exact ⟨hf, hw, hc⟩
     obtain ⟨s1, s2, s3⟩ := step1
     split
@@ -190,28 +258,246 @@ theorem boundFacts_sound {Γ : Ctx} {env : Env} {fs fs' : List Expr} {n : String
       · intro f hfm
         rcases mem_appendFact_cmp cle hfm with h | h
         · exact s2 f h
-        · subst h; simp [wt]
+        · subst h; exact ⟨hwl, trivial⟩
       · intro f hfm
         rcases mem_appendFact_cmp cle hfm with h | h
         · exact s3 f h
-        · subst h; exact cle
+        · subst h; exact goodFact_of_cmp cle
     · exact ⟨s1, s2, s3⟩
   · cases hb
 
-theorem envOk_upd {Γ : Ctx} {env : Env} {n : String} {v : Int} (he : EnvOk Γ env)
-    (hv : inType (Γ n) v) : EnvOk Γ (upd env n v) := by
+theorem envOk_updKey {Γ : Ctx} {env : Env} {key : Key} {v : Int} (he : EnvOk Γ env)
+    (hv : inType (Γ key.name) v) : EnvOk Γ (updKey env key v) := by
   intro m
-  simp only [upd]
+  simp only [updKey]
   split
   · rename_i h; subst h; exact hv
   · exact he m
 
-/-- the statement's right-hand side and the facts are well-typed comparisons -/
+theorem envOk_upd {Γ : Ctx} {env : Env} {n : String} {v : Int} (he : EnvOk Γ env)
+    (hv : inType (Γ n) v) : EnvOk Γ (upd env n v) :=
+  envOk_updKey (key := .sc n) he hv
+
+/-- the checker's situation at a program point: the store respects the declared types,
+every fact is true in it (C02 facts clause), the facts are well-typed and of a shape the
+op-assignment rewriting understands (`GoodFact`; field name `cmpF` kept from the time
+when all facts were comparisons) -/
 structure Situation (Γ : Ctx) (env : Env) (fs : List Expr) : Prop where
   envOk : EnvOk Γ env
   holds : FactsHold env fs
   wtF : ∀ f ∈ fs, wt Γ f
-  cmpF : ∀ f ∈ fs, IsCmpFact f
+  cmpF : ∀ f ∈ fs, GoodFact f
+
+/-- What the soundness of one (op-)assignment needs to know about the store `env'`
+after it, abstractly: it respects the types, the target now holds `v`, and the
+expressions the checker assumes to be unaffected (`Unaff`) are.  Instantiated below
+for a variable target (`Unaff e` = "`e` does not `Mention` the variable") and for an
+array-element target (`Unaff e` = "`e` reads no element of that array"). -/
+structure StoreStep (Γ : Ctx) (env env' : Env) (fs : List Expr) (lhs rhs : Expr) (v : Int)
+    (Unaff : Expr → Prop) : Prop where
+  envOk' : EnvOk Γ env'
+  lhsVal : evalI env' lhs = v
+  stable : ∀ e, wt Γ e → Unaff e → evalI env' e = evalI env e
+  keptU : ∀ f ∈ fs, mentions f lhs = false → Unaff f
+  rhsU : mentions rhs lhs = false → Unaff rhs
+  xrU : ∀ xop xr, Expr.binary xop lhs xr ∈ fs → mentions xr lhs = false → Unaff xr
+
+theorem assign_core {Γ : Ctx} {env env' : Env} {fs fs' : List Expr} {lhs rhs : Expr}
+    {Unaff : Expr → Prop}
+    (S : Situation Γ env fs) (hwl : wt Γ lhs) (hwr : wt Γ rhs)
+    (h : checkStmt fs (.assign lhs rhs) = some fs')
+    (st : inType (typeOf lhs) (evalI env rhs) →
+      StoreStep Γ env env' fs lhs rhs (evalI env rhs) Unaff) :
+    stmtSafe env (.assign lhs rhs) ∧ Situation Γ env' fs' := by
+  simp only [checkStmt] at h
+  split at h
+  · cases h
+  · split at h
+    · rename_i lb rb hlb hrb
+      split at h
+      · cases h
+      · rename_i hfit
+        simp only [Bool.not_eq_true, Bool.not_eq_false'] at hfit
+        obtain ⟨hsl, _⟩ := bounds_contain' S.holds (varsOk_of_wt S.envOk lhs hwl) hlb
+        obtain ⟨hsafe, hmem⟩ := bounds_contain' S.holds (varsOk_of_wt S.envOk rhs hwr) hrb
+        have hty : inType (typeOf lhs) (evalI env rhs) := fitsType_spec hfit hmem
+        have T := st hty
+        refine ⟨⟨hsl, hsafe, hty⟩, ?_⟩
+        -- the facts that survive `dropAnyFactsMentioning`
+        have h1 : FactsHold env' (dropMentioning fs lhs) := by
+          intro f hf
+          simp only [dropMentioning, List.mem_filter, Bool.not_eq_true'] at hf
+          rw [T.stable f (S.wtF f hf.1) (T.keptU f hf.1 hf.2)]
+          exact S.holds f hf.1
+        have w1 : ∀ f ∈ dropMentioning fs lhs, wt Γ f := by
+          intro f hf
+          simp only [dropMentioning, List.mem_filter] at hf
+          exact S.wtF f hf.1
+        have c1 : ∀ f ∈ dropMentioning fs lhs, GoodFact f := by
+          intro f hf
+          simp only [dropMentioning, List.mem_filter] at hf
+          exact S.cmpF f hf.1
+        split at h
+        · cases h; exact ⟨T.envOk', h1, w1, c1⟩
+        · -- numeric destination: `lhs == rhs` unless the RHS mentions the LHS
+          have ceq : IsCmpFact (.binary .eq lhs rhs) := ⟨_, _, _, rfl, rfl⟩
+          have s2 : FactsHold env'
+                (if mentions rhs lhs = true then dropMentioning fs lhs
+                 else appendFact (dropMentioning fs lhs) (.binary .eq lhs rhs)) ∧
+              (∀ f ∈ (if mentions rhs lhs = true then dropMentioning fs lhs
+                 else appendFact (dropMentioning fs lhs) (.binary .eq lhs rhs)), wt Γ f) ∧
+              (∀ f ∈ (if mentions rhs lhs = true then dropMentioning fs lhs
+                 else appendFact (dropMentioning fs lhs) (.binary .eq lhs rhs)), GoodFact f) := by
+            split
+            · exact ⟨h1, w1, c1⟩
+            · rename_i hm
+              simp only [Bool.not_eq_true] at hm
+              have teq : evalI env' (.binary .eq lhs rhs) ≠ 0 := by
+                apply (evalI_cmp rfl _ _).2
+                simp only [cmpRel, T.lhsVal, T.stable rhs hwr (T.rhsU hm)]
+              refine ⟨factsHold_appendFact ceq h1 teq, ?_, ?_⟩
+              · intro f hfm
+                rcases mem_appendFact_cmp ceq hfm with h | h
+                · exact w1 f h
+                · subst h; exact ⟨hwl, hwr⟩
+              · intro f hfm
+                rcases mem_appendFact_cmp ceq hfm with h | h
+                · exact c1 f h
+                · subst h; exact goodFact_of_cmp ceq
+          obtain ⟨s2a, s2b, s2c⟩ := s2
+          split at h
+          · cases h; exact ⟨T.envOk', s2a, s2b, s2c⟩
+          · have hmem' : rb.mem (evalI env' lhs) := by rw [T.lhsVal]; exact hmem
+            obtain ⟨r1, r2, r3⟩ := boundFacts_sound hwl h hmem' s2a s2b s2c
+            exact ⟨T.envOk', r1, r2, r3⟩
+    · cases h
+
+theorem cmpRel_shift {xop : BOp} (hc : xop.isCmp = true) (a b e : Int) :
+    (cmpRel xop (a + e) (b + e) ↔ cmpRel xop a b) ∧ (cmpRel xop (a - e) (b - e) ↔ cmpRel xop a b) := by
+  cases xop <;> simp [BOp.isCmp] at hc <;> simp only [cmpRel] <;> constructor <;> constructor <;>
+    intro h <;> omega
+
+/-- the rewriting of one fact by `lhs op= rhs` yields a fact that is true afterwards -/
+theorem rewriteFact_core {Γ : Ctx} {env env' : Env} {fs : List Expr} {op : BOp}
+    {lhs rhs f g : Expr} {Unaff : Expr → Prop}
+    (T : StoreStep Γ env env' fs lhs rhs (evalI env (.binary op lhs rhs)) Unaff)
+    (hnum : (typeOf lhs).base ≠ .bool)
+    (hwl : wt Γ lhs) (hwr : wt Γ rhs) (hmem : f ∈ fs) (hwf : wt Γ f) (hcf : GoodFact f)
+    (hf : evalI env f ≠ 0) (h : rewriteFact op lhs rhs f = some g) :
+    evalI env' g ≠ 0 ∧ wt Γ g ∧ GoodFact g := by
+  unfold rewriteFact at h
+  split at h
+  · rename_i xop xl xr
+    split at h
+    · rename_i hxl
+      have e := eq_of_beq hxl
+      subst e
+      have hxc : xop.isCmp = true := by
+        rcases hcf xop xl xr rfl with h | h
+        · exact h
+        · exact absurd h hnum
+      split at h
+      · cases h
+      · rename_i hm
+        simp only [Bool.or_eq_true, not_or, Bool.not_eq_true] at hm
+        have hw := hwf
+        simp only [wt] at hw
+        have key : ∀ op', (op' = BOp.plus ∨ op' = BOp.minus) → op = op' →
+            evalI env' (.binary xop xl (simplifyBin op xr rhs)) ≠ 0 := by
+          intro op' hop' hop
+          apply (evalI_cmp hxc _ _).2
+          rw [evalI_simplifyBin (hop ▸ hop'), T.stable xr hw.2 (T.xrU xop xr hmem hm.1),
+            T.stable rhs hwr (T.rhsU hm.2), T.lhsVal]
+          have h0 := (evalI_cmp hxc _ _).1 hf
+          simp only [evalI]
+          subst hop
+          rcases hop' with rfl | rfl
+          · simp only [binSem, opBase]; exact (cmpRel_shift hxc _ _ _).1.2 h0
+          · simp only [binSem, opBase]; exact (cmpRel_shift hxc _ _ _).2.2 h0
+        cases op
+        case plus =>
+          simp only [] at h; cases h
+          exact ⟨key .plus (Or.inl rfl) rfl, ⟨hw.1, wt_simplifyBin hw.2 hwr⟩,
+            goodFact_of_cmp ⟨_, _, _, rfl, hxc⟩⟩
+        case minus =>
+          simp only [] at h; cases h
+          exact ⟨key .minus (Or.inr rfl) rfl, ⟨hw.1, wt_simplifyBin hw.2 hwr⟩,
+            goodFact_of_cmp ⟨_, _, _, rfl, hxc⟩⟩
+        all_goals (first | (simp only [] at h; cases h) | cases h)
+    · split at h
+      · cases h
+      · rename_i hm
+        simp only [Bool.not_eq_true] at hm
+        cases h
+        rw [T.stable _ hwf (T.keptU _ hmem hm)]
+        exact ⟨hf, hwf, hcf⟩
+  · split at h
+    · cases h
+    · rename_i hm
+      simp only [Bool.not_eq_true] at hm
+      cases h
+      rw [T.stable _ hwf (T.keptU _ hmem hm)]
+      exact ⟨hf, hwf, hcf⟩
+
+theorem opassign_core {Γ : Ctx} {env env' : Env} {fs fs' : List Expr} {op : BOp}
+    {lhs rhs : Expr} {Unaff : Expr → Prop}
+    (S : Situation Γ env fs) (hwl : wt Γ lhs) (hwr : wt Γ rhs)
+    (hnum : (typeOf lhs).base ≠ .bool)
+    (hnat : (typeOf lhs).base ≠ .ideal → inNatural (typeOf lhs).base (evalI env lhs))
+    (h : checkStmt fs (.opAssign op lhs rhs) = some fs')
+    (st : inType (typeOf lhs) (evalI env (.binary op lhs rhs)) →
+      StoreStep Γ env env' fs lhs rhs (evalI env (.binary op lhs rhs)) Unaff) :
+    stmtSafe env (.opAssign op lhs rhs) ∧ Situation Γ env' fs' := by
+  simp only [checkStmt] at h
+  split at h
+  · cases h
+  · split at h
+    · rename_i lb rb hlb hrb
+      split at h
+      · cases h
+      · rename_i nb hnb
+        split at h
+        · cases h
+        · rename_i hfit
+          simp only [Bool.not_eq_true, Bool.not_eq_false'] at hfit
+          obtain ⟨hsl, hml⟩ := bounds_contain' S.holds (varsOk_of_wt S.envOk _ hwl) hlb
+          obtain ⟨hsafe, hmr⟩ := bounds_contain' S.holds (varsOk_of_wt S.envOk rhs hwr) hrb
+          obtain ⟨hmon, hmn⟩ := binBounds_sound S.holds hml hmr (fun _ hne => hnat hne) hnb
+          have hmn' : nb.mem (evalI env (.binary op lhs rhs)) := by
+            simpa [evalI] using hmn
+          have hty : inType (typeOf lhs) (evalI env (.binary op lhs rhs)) :=
+            fitsType_spec hfit hmn'
+          have T := st hty
+          refine ⟨⟨hsl, hsafe, hmon, hty⟩, ?_⟩
+          have s1 : FactsHold env' (fs.filterMap (rewriteFact op lhs rhs)) ∧
+              (∀ f ∈ fs.filterMap (rewriteFact op lhs rhs), wt Γ f) ∧
+              (∀ f ∈ fs.filterMap (rewriteFact op lhs rhs), GoodFact f) := by
+            refine ⟨?_, ?_, ?_⟩ <;> intro g hg <;> simp only [List.mem_filterMap] at hg <;>
+              obtain ⟨f, hf, hfg⟩ := hg <;>
+              have := rewriteFact_core T hnum hwl hwr hf (S.wtF f hf) (S.cmpF f hf) (S.holds f hf) hfg
+            · exact this.1
+            · exact this.2.1
+            · exact this.2.2
+          obtain ⟨s1a, s1b, s1c⟩ := s1
+          split at h
+          · cases h; exact ⟨T.envOk', s1a, s1b, s1c⟩
+          · have hmem' : nb.mem (evalI env' lhs) := by rw [T.lhsVal]; exact hmn'
+            obtain ⟨r1, r2, r3⟩ := boundFacts_sound hwl h hmem' s1a s1b s1c
+            exact ⟨T.envOk', r1, r2, r3⟩
+    · cases h
+
+/-! ### variable targets -/
+
+theorem storeStep_var {Γ : Ctx} {env : Env} {fs : List Expr} {n : String} {rhs : Expr} {v : Int}
+    (he : EnvOk Γ env) (hv : inType (Γ n) v) :
+    StoreStep Γ env (upd env n v) fs (.var n (Γ n)) rhs v
+      (fun e => mentions e (.var n (Γ n)) = false) where
+  envOk' := envOk_upd he hv
+  lhsVal := by simp [evalI, upd]
+  stable := fun e hw hu => evalI_upd v e hw hu
+  keptU := fun _ _ h => h
+  rhsU := fun h => h
+  xrU := fun _ _ _ h => h
 
 theorem assign_sound {Γ : Ctx} {env : Env} {fs fs' : List Expr} {n : String} {rhs : Expr}
     (S : Situation Γ env fs) (hwr : wt Γ rhs)
@@ -220,171 +506,25 @@ theorem assign_sound {Γ : Ctx} {env : Env} {fs fs' : List Expr} {n : String} {r
       Situation Γ (execStmt env (.assign (.var n (Γ n)) rhs)) fs' := by
   have hexec : execStmt env (.assign (.var n (Γ n)) rhs) = upd env n (evalI env rhs) := rfl
   rw [hexec]
-  simp only [checkStmt, isVar, Bool.not_true, Bool.false_eq_true, if_false] at h
-  split at h
-  · rename_i lb rb hlb hrb
-    split at h
-    · cases h
-    · rename_i hfit
-      simp only [Bool.not_eq_true, Bool.not_eq_false'] at hfit
-      have hfit' : fitsType (Γ n) rb = true := by simpa [typeOf] using hfit
-      obtain ⟨hsafe, hmem⟩ := bounds_contain' S.holds (varsOk_of_wt S.envOk rhs hwr) hrb
-      have hty : inType (Γ n) (evalI env rhs) := fitsType_spec hfit' hmem
-      have hen : EnvOk Γ (upd env n (evalI env rhs)) := envOk_upd S.envOk hty
-      refine ⟨⟨hsafe, by simpa [typeOf] using hty⟩, ?_⟩
-      -- the facts that survive `dropAnyFactsMentioning`
-      have h1 : FactsHold (upd env n (evalI env rhs)) (dropMentioning fs (.var n (Γ n))) := by
-        intro f hf
-        simp only [dropMentioning, List.mem_filter, Bool.not_eq_true'] at hf
-        rw [evalI_upd _ f (S.wtF f hf.1) hf.2]
-        exact S.holds f hf.1
-      have w1 : ∀ f ∈ dropMentioning fs (.var n (Γ n)), wt Γ f := by
-        intro f hf
-        simp only [dropMentioning, List.mem_filter] at hf
-        exact S.wtF f hf.1
-      have c1 : ∀ f ∈ dropMentioning fs (.var n (Γ n)), IsCmpFact f := by
-        intro f hf
-        simp only [dropMentioning, List.mem_filter] at hf
-        exact S.cmpF f hf.1
-      split at h
-      · cases h; exact ⟨hen, h1, w1, c1⟩
-      · -- numeric destination: `lhs == rhs` unless the RHS mentions the LHS
-        have ceq : IsCmpFact (.binary .eq (.var n (Γ n)) rhs) := ⟨_, _, _, rfl, rfl⟩
-        have s2 : FactsHold (upd env n (evalI env rhs))
-              (if mentions rhs (.var n (Γ n)) = true then dropMentioning fs (.var n (Γ n))
-               else appendFact (dropMentioning fs (.var n (Γ n))) (.binary .eq (.var n (Γ n)) rhs)) ∧
-            (∀ f ∈ (if mentions rhs (.var n (Γ n)) = true then dropMentioning fs (.var n (Γ n))
-               else appendFact (dropMentioning fs (.var n (Γ n))) (.binary .eq (.var n (Γ n)) rhs)), wt Γ f) ∧
-            (∀ f ∈ (if mentions rhs (.var n (Γ n)) = true then dropMentioning fs (.var n (Γ n))
-               else appendFact (dropMentioning fs (.var n (Γ n))) (.binary .eq (.var n (Γ n)) rhs)), IsCmpFact f) := by
-          split
-          · exact ⟨h1, w1, c1⟩
-          · rename_i hm
-            simp only [Bool.not_eq_true] at hm
-            have teq : evalI (upd env n (evalI env rhs)) (.binary .eq (.var n (Γ n)) rhs) ≠ 0 := by
-              apply (evalI_cmp rfl _ _).2
-              simp only [cmpRel, evalI_upd _ rhs hwr hm]
-              simp [evalI, upd]
-            refine ⟨factsHold_appendFact ceq h1 teq, ?_, ?_⟩
-            · intro f hfm
-              rcases mem_appendFact_cmp ceq hfm with h | h
-              · exact w1 f h
-              · subst h; exact ⟨rfl, hwr⟩
-            · intro f hfm
-              rcases mem_appendFact_cmp ceq hfm with h | h
-              · exact c1 f h
-              · subst h; exact ceq
-        obtain ⟨s2a, s2b, s2c⟩ := s2
-        split at h
-        · cases h; exact ⟨hen, s2a, s2b, s2c⟩
-        · have hmem' : rb.mem ((upd env n (evalI env rhs)) n) := by simpa [upd] using hmem
-          obtain ⟨r1, r2, r3⟩ := boundFacts_sound h hmem' s2a s2b s2c
-          exact ⟨hen, r1, r2, r3⟩
-  · cases h
-
-theorem cmpRel_shift {xop : BOp} (hc : xop.isCmp = true) (a b e : Int) :
-    (cmpRel xop (a + e) (b + e) ↔ cmpRel xop a b) ∧ (cmpRel xop (a - e) (b - e) ↔ cmpRel xop a b) := by
-  cases xop <;> simp [BOp.isCmp] at hc <;> simp only [cmpRel] <;> constructor <;> constructor <;>
-    intro h <;> omega
-
-theorem rewriteFact_sound {Γ : Ctx} {env : Env} {n : String} {op : BOp} {rhs f g : Expr}
-    (hwr : wt Γ rhs) (hwf : wt Γ f) (hcf : IsCmpFact f) (hf : evalI env f ≠ 0)
-    (h : rewriteFact op (.var n (Γ n)) rhs f = some g) :
-    evalI (upd env n (evalI env (.binary op (.var n (Γ n)) rhs))) g ≠ 0 ∧ wt Γ g ∧ IsCmpFact g := by
-  obtain ⟨xop, xl, xr, rfl, hxc⟩ := hcf
-  simp only [rewriteFact] at h
-  split at h
-  · rename_i hxl
-    have e := eq_of_beq hxl
-    subst e
-    split at h
-    · cases h
-    · rename_i hm
-      simp only [Bool.or_eq_true, not_or, Bool.not_eq_true] at hm
-      have hw := hwf
-      simp only [wt] at hw
-      have key : ∀ op', (op' = BOp.plus ∨ op' = BOp.minus) → op = op' →
-          evalI (upd env n (evalI env (.binary op (.var n (Γ n)) rhs)))
-            (.binary xop (.var n (Γ n)) (simplifyBin op xr rhs)) ≠ 0 := by
-        intro op' hop' hop
-        apply (evalI_cmp hxc _ _).2
-        rw [evalI_simplifyBin (hop ▸ hop'), evalI_upd _ xr hw.2 hm.1, evalI_upd _ rhs hwr hm.2]
-        have h0 := (evalI_cmp hxc _ _).1 hf
-        simp only [evalI, upd, if_true] at h0 ⊢
-        subst hop
-        rcases hop' with rfl | rfl
-        · simp only [binSem]; exact (cmpRel_shift hxc _ _ _).1.2 h0
-        · simp only [binSem]; exact (cmpRel_shift hxc _ _ _).2.2 h0
-      cases op
-      case plus =>
-        simp only [] at h; cases h
-        exact ⟨key .plus (Or.inl rfl) rfl, ⟨rfl, wt_simplifyBin hw.2 hwr⟩, ⟨_, _, _, rfl, hxc⟩⟩
-      case minus =>
-        simp only [] at h; cases h
-        exact ⟨key .minus (Or.inr rfl) rfl, ⟨rfl, wt_simplifyBin hw.2 hwr⟩, ⟨_, _, _, rfl, hxc⟩⟩
-      all_goals (first | (simp only [] at h; cases h) | cases h)
-  · split at h
-    · cases h
-    · rename_i hm
-      simp only [Bool.not_eq_true] at hm
-      cases h
-      rw [evalI_upd _ _ hwf hm]
-      exact ⟨hf, hwf, ⟨_, _, _, rfl, hxc⟩⟩
+  exact assign_core S rfl hwr h (fun hty => storeStep_var S.envOk (by simpa [typeOf] using hty))
 
 theorem opassign_sound {Γ : Ctx} {env : Env} {fs fs' : List Expr} {n : String} {op : BOp}
-    {rhs : Expr} (S : Situation Γ env fs) (hwr : wt Γ rhs)
+    {rhs : Expr} (S : Situation Γ env fs) (hwr : wt Γ rhs) (hnum : (Γ n).base ≠ .bool)
     (h : checkStmt fs (.opAssign op (.var n (Γ n)) rhs) = some fs') :
     stmtSafe env (.opAssign op (.var n (Γ n)) rhs) ∧
       Situation Γ (execStmt env (.opAssign op (.var n (Γ n)) rhs)) fs' := by
   have hexec : execStmt env (.opAssign op (.var n (Γ n)) rhs) =
       upd env n (evalI env (.binary op (.var n (Γ n)) rhs)) := rfl
   rw [hexec]
-  simp only [checkStmt, isVar, Bool.not_true, Bool.false_eq_true, if_false] at h
-  split at h
-  · rename_i lb rb hlb hrb
-    split at h
-    · cases h
-    · rename_i nb hnb
-      split at h
-      · cases h
-      · rename_i hfit
-        simp only [Bool.not_eq_true, Bool.not_eq_false'] at hfit
-        have hfit' : fitsType (Γ n) nb = true := by simpa [typeOf] using hfit
-        have hwl : wt Γ (.var n (Γ n)) := rfl
-        obtain ⟨_, hml⟩ := bounds_contain' S.holds (varsOk_of_wt S.envOk _ hwl) hlb
-        obtain ⟨hsafe, hmr⟩ := bounds_contain' S.holds (varsOk_of_wt S.envOk rhs hwr) hrb
-        obtain ⟨hmon, hmn⟩ := binBounds_sound S.holds hml hmr
-          (fun _ _ => by simpa [typeOf, evalI] using (S.envOk n).1) hnb
-        have hmn' : nb.mem (evalI env (.binary op (.var n (Γ n)) rhs)) := by
-          simpa [evalI] using hmn
-        have hty : inType (Γ n) (evalI env (.binary op (.var n (Γ n)) rhs)) :=
-          fitsType_spec hfit' hmn'
-        have hen := envOk_upd (n := n) S.envOk hty
-        refine ⟨⟨hsafe, hmon, by simpa [typeOf] using hty⟩, ?_⟩
-        have s1 : FactsHold (upd env n (evalI env (.binary op (.var n (Γ n)) rhs)))
-              (fs.filterMap (rewriteFact op (.var n (Γ n)) rhs)) ∧
-            (∀ f ∈ fs.filterMap (rewriteFact op (.var n (Γ n)) rhs), wt Γ f) ∧
-            (∀ f ∈ fs.filterMap (rewriteFact op (.var n (Γ n)) rhs), IsCmpFact f) := by
-          refine ⟨?_, ?_, ?_⟩ <;> intro g hg <;> simp only [List.mem_filterMap] at hg <;>
-            obtain ⟨f, hf, hfg⟩ := hg <;>
-            have := rewriteFact_sound hwr (S.wtF f hf) (S.cmpF f hf) (S.holds f hf) hfg
-          · exact this.1
-          · exact this.2.1
-          · exact this.2.2
-        obtain ⟨s1a, s1b, s1c⟩ := s1
-        split at h
-        · cases h; exact ⟨hen, s1a, s1b, s1c⟩
-        · have hmem' : nb.mem ((upd env n (evalI env (.binary op (.var n (Γ n)) rhs))) n) := by
-            simpa [upd] using hmn'
-          obtain ⟨r1, r2, r3⟩ := boundFacts_sound h hmem' s1a s1b s1c
-          exact ⟨hen, r1, r2, r3⟩
-  · cases h
+  exact opassign_core S rfl hwr (by simpa [typeOf] using hnum)
+    (fun _ => by simpa [typeOf, evalI, Key.name] using (S.envOk (.sc n)).1) h
+    (fun hty => storeStep_var S.envOk (by simpa [typeOf] using hty))
 
-/-- a statement of this layer: the destination is a declared variable, the right-hand
-side is well-typed -/
+/-- a statement of this layer with a VARIABLE target: the destination is a declared
+variable (numeric for an op-assignment), the right-hand side is well-typed -/
 def wtStmt (Γ : Ctx) : Stmt → Prop
   | .assign lhs rhs => (∃ n, lhs = .var n (Γ n)) ∧ wt Γ rhs
-  | .opAssign _ lhs rhs => (∃ n, lhs = .var n (Γ n)) ∧ wt Γ rhs
+  | .opAssign _ lhs rhs => (∃ n, lhs = .var n (Γ n) ∧ (Γ n).base ≠ .bool) ∧ wt Γ rhs
 
 theorem stmt_sound {Γ : Ctx} {env : Env} {fs fs' : List Expr} {s : Stmt}
     (S : Situation Γ env fs) (hw : wtStmt Γ s) (h : checkStmt fs s = some fs') :
@@ -394,8 +534,99 @@ theorem stmt_sound {Γ : Ctx} {env : Env} {fs fs' : List Expr} {s : Stmt}
     obtain ⟨⟨n, rfl⟩, hwr⟩ := hw
     exact assign_sound S hwr h
   | opAssign op lhs rhs =>
-    obtain ⟨⟨n, rfl⟩, hwr⟩ := hw
-    exact opassign_sound S hwr h
+    obtain ⟨⟨n, rfl, hnum⟩, hwr⟩ := hw
+    exact opassign_sound S hwr hnum h
+
+/-! ### array-element targets `a[i] = rhs`, `a[i] op= rhs`
+
+The checker drops only the facts that `Mention` the very expression `a[i]`.  That is
+sound only when nothing else it relies on reads the array through another index
+expression: `NoAlias`.  Without it the rule is unsound (`Props.C01.index_alias_witness`,
+KNOWN_FINDINGS false-fact:mentions-index:after-store-index). -/
+
+/-- no expression the checker keeps relying on after a store to `a[i]` reads the array
+`a` other than through the very expression `a[i]` -/
+structure NoAlias (fs : List Expr) (a : String) (lhs i rhs : Expr) : Prop where
+  idx : readsArr i a = false
+  kept : ∀ f ∈ fs, mentions f lhs = false → readsArr f a = false
+  rhsA : mentions rhs lhs = false → readsArr rhs a = false
+  xrA : ∀ xop xr, Expr.binary xop lhs xr ∈ fs → mentions xr lhs = false → readsArr xr a = false
+
+theorem storeStep_index {Γ : Ctx} {env : Env} {fs : List Expr} {a : String} {len : Nat}
+    {i rhs : Expr} {v : Int}
+    (he : EnvOk Γ env) (hv : inType (Γ a) v) (na : NoAlias fs a (.index a len (Γ a) i) i rhs) :
+    StoreStep Γ env (updKey env (.cell a (evalI env i)) v) fs (.index a len (Γ a) i) rhs v
+      (fun e => readsArr e a = false) where
+  envOk' := envOk_updKey (key := .cell a (evalI env i)) he hv
+  lhsVal := by
+    simp only [evalI, evalI_updCell _ _ i na.idx]
+    simp [updKey]
+  stable := fun e _ hu => evalI_updCell _ _ e hu
+  keptU := na.kept
+  rhsU := na.rhsA
+  xrU := na.xrA
+
+/-- a statement with an ARRAY-ELEMENT target -/
+def wtStore (Γ : Ctx) (fs : List Expr) : Stmt → Prop
+  | .assign lhs rhs =>
+    (∃ a len i, lhs = .index a len (Γ a) i ∧ wt Γ i ∧ NoAlias fs a lhs i rhs) ∧ wt Γ rhs
+  | .opAssign _ lhs rhs =>
+    (∃ a len i, lhs = .index a len (Γ a) i ∧ wt Γ i ∧ NoAlias fs a lhs i rhs ∧
+      (Γ a).base ≠ .bool) ∧ wt Γ rhs
+
+/-- **store_sound**: an accepted store to an array element trips no monitor — in
+particular the index is within `[0, len)` — and, when nothing else the checker relies on
+reads that array (`NoAlias`), the situation it continues with holds afterwards. -/
+theorem store_sound {Γ : Ctx} {env : Env} {fs fs' : List Expr} {s : Stmt}
+    (S : Situation Γ env fs) (hw : wtStore Γ fs s) (h : checkStmt fs s = some fs') :
+    stmtSafe env s ∧ Situation Γ (execStmt env s) fs' := by
+  cases s with
+  | assign lhs rhs =>
+    obtain ⟨⟨a, len, i, rfl, hwi, na⟩, hwr⟩ := hw
+    have hexec : execStmt env (.assign (.index a len (Γ a) i) rhs) =
+        updKey env (.cell a (evalI env i)) (evalI env rhs) := rfl
+    rw [hexec]
+    exact assign_core S ⟨rfl, hwi⟩ hwr h
+      (fun hty => storeStep_index S.envOk (by simpa [typeOf] using hty) na)
+  | opAssign op lhs rhs =>
+    obtain ⟨⟨a, len, i, rfl, hwi, na, hnum⟩, hwr⟩ := hw
+    have hexec : execStmt env (.opAssign op (.index a len (Γ a) i) rhs) =
+        updKey env (.cell a (evalI env i))
+          (evalI env (.binary op (.index a len (Γ a) i) rhs)) := rfl
+    rw [hexec]
+    exact opassign_core S ⟨rfl, hwi⟩ hwr (by simpa [typeOf] using hnum)
+      (fun _ => by simpa [typeOf, evalI, Key.name] using (S.envOk (.cell a (evalI env i))).1) h
+      (fun hty => storeStep_index S.envOk (by simpa [typeOf] using hty) na)
+
+/-- the stores of an accepted statement never leave the array: the index monitor,
+with no aliasing hypothesis at all (only the situation BEFORE the statement) -/
+theorem store_index_in_range {Γ : Ctx} {env : Env} {fs fs' : List Expr} {s : Stmt}
+    {a : String} {len : Nat} {ety : Ty} {i : Expr}
+    (S : Situation Γ env fs) (hs : stmtTarget s = .index a len ety i)
+    (hwl : wt Γ (.index a len ety i)) (h : checkStmt fs s = some fs') :
+    0 ≤ evalI env i ∧ evalI env i < len := by
+  have key : ∀ lb, bcheck fs false (.index a len ety i) = some lb →
+      0 ≤ evalI env i ∧ evalI env i < len := by
+    intro lb hlb
+    have := (bounds_contain' S.holds (varsOk_of_wt S.envOk _ hwl) hlb).1
+    exact this.2
+  cases s with
+  | assign lhs rhs =>
+    simp only [stmtTarget] at hs; subst hs
+    simp only [checkStmt] at h
+    split at h
+    · cases h
+    · split at h
+      · rename_i lb rb hlb hrb; exact key lb hlb
+      · cases h
+  | opAssign op lhs rhs =>
+    simp only [stmtTarget] at hs; subst hs
+    simp only [checkStmt] at h
+    split at h
+    · cases h
+    · split at h
+      · rename_i lb rb hlb hrb; exact key lb hlb
+      · cases h
 
 /-- along the execution of an accepted block: before every statement all facts of the
 checker's situation are true, the statement trips no monitor; at the end the final
@@ -405,6 +636,13 @@ def HoldsAlong (Γ : Ctx) : List Expr → Env → List Stmt → Prop
   | fs, env, s :: ss =>
     Situation Γ env fs ∧ stmtSafe env s ∧
       ∃ fs1, checkStmt fs s = some fs1 ∧ HoldsAlong Γ fs1 (execStmt env s) ss
+
+/-- well-formedness of a block with both kinds of targets; the `NoAlias` side condition
+of an element store refers to the facts the checker holds just before it -/
+def wtBlock (Γ : Ctx) : List Expr → List Stmt → Prop
+  | _, [] => True
+  | fs, s :: ss =>
+    (wtStmt Γ s ∨ wtStore Γ fs s) ∧ ∀ fs1, checkStmt fs s = some fs1 → wtBlock Γ fs1 ss
 
 theorem block_sound {Γ : Ctx} :
     ∀ (ss : List Stmt) (fs fs' : List Expr) (env : Env), Situation Γ env fs →
@@ -420,5 +658,25 @@ theorem block_sound {Γ : Ctx} :
     · rename_i fs1 h1
       obtain ⟨hs, S1⟩ := stmt_sound S (hw s List.mem_cons_self) h1
       exact ⟨S, hs, fs1, h1, ih fs1 fs' _ S1 (fun t ht => hw t (List.mem_cons_of_mem _ ht)) h⟩
+
+/-- blocks with variable and array-element targets -/
+theorem block_sound_arr {Γ : Ctx} :
+    ∀ (ss : List Stmt) (fs fs' : List Expr) (env : Env), Situation Γ env fs →
+      wtBlock Γ fs ss → checkBlock fs ss = some fs' → HoldsAlong Γ fs env ss := by
+  intro ss
+  induction ss with
+  | nil => intro fs fs' env S _ _; exact S
+  | cons s ss ih =>
+    intro fs fs' env S hw h
+    simp only [checkBlock] at h
+    split at h
+    · cases h
+    · rename_i fs1 h1
+      obtain ⟨hw1, hw2⟩ := hw
+      have step : stmtSafe env s ∧ Situation Γ (execStmt env s) fs1 := by
+        rcases hw1 with hv | hst
+        · exact stmt_sound S hv h1
+        · exact store_sound S hst h1
+      exact ⟨S, step.1, fs1, h1, ih fs1 fs' _ step.2 (hw2 fs1 h1) h⟩
 
 end WuffsVerif.Proof.WCoreStmt
